@@ -250,7 +250,7 @@ def check(R):
                 tr = prims.track_result(F, co, t, inner=1)
                 e |= tr.failure
             return e
-        R.cut('P2', co, 'run the ' + fn + ' responder', [t.bb for t in rs], 'timed_out(..) == false', notimed)
+        R.cut('P2', co, 'run the ' + fn + ' responder (every chunk)', [t.bb for t in rs], 'timed_out(..) == false', notimed, per_visit=True)
         to = co.calls(IM + '::timed_out')
         R.floor('timed_out call', len(to), 1)
         s_inst, s_flag = prims.sources(co, to[0].d['a'][2]), prims.sources(co, to[0].d['a'][3], through={'im::encoding::write::WriteReq::timed_request', 'im::encoding::invoke::InvReq::timed_request'})
